@@ -87,24 +87,26 @@ EXTENDS Integers, Sequences, FiniteSets, TLC
 Range(s) == {s[k] : k \in DOMAIN s}
 
 \* ------------------------------------------------------------ field menu
-\* Both kinds (XR XThing, composed Thing) share one universe of field shapes; the driver builds the CRD schemas
+\* The three kinds (XR XThing; composed Thing = resource r1; composed Other = resource r2) share one universe of field
+\* shapes, plus one field each that only that kind declares; the driver builds the CRD schemas
 \* (harness/drivers/compvalidation: specProps) and conforming objects.  key -> path:
 \*   str spec.str:string  int spec.int:integer  num spec.num:number  bool spec.bool:boolean
 \*   obj spec.obj:{k:string}  objk spec.obj.k  arr spec.arr:[string]  arr0 spec.arr[0]  aobjv spec.aobj[0].v
 \*   wild spec.aobj[*].v  amax1 spec.amax[1] (maxItems 2)  amax2 spec.amax[2]
 \*   map spec.map:{additionalProperties string}  mapk spec.map[some.key]  mapany spec.mapany:{additionalProperties true}
 \*   mapanyk spec.mapany.k  free spec.free:{type object, x-kubernetes-preserve-unknown-fields}  freek spec.free.k.j
-\*   ios spec.ios:{x-kubernetes-int-or-string}  xonly spec.xonly (XR only)  conly spec.conly (composed only)
+\*   ios spec.ios:{x-kubernetes-int-or-string}  xonly spec.xonly (XR only)  conly spec.conly (composed Thing only)
+\*   oonly spec.oonly (composed Other only: the second resource of a Composition is of another kind)
 \*   nope spec.nope  strx spec.str.x  str0 spec.str[0]  obj0 spec.obj[0]  arrx spec.arr.x  objnope spec.obj.nope
 \*   mname metadata.name  mlabel metadata.labels[app]  mann metadata.annotations[a.b/c]  mbogus metadata.bogus
 \*   status status.phase:string  bad "spec["  empty ""
-Sides == {"xr", "cd"}
-Variants == {"typed", "noschema", "preserve", "otherversion"}
+Sides == {"xr", "cd", "ot"}      \* XR XThing, composed Thing (resource r1), composed Other (resource r2)
+Variants == {"typed", "noschema", "preserve", "twoversions", "otherversion"}
 PlainTypes == {"string", "integer", "number", "boolean", "object", "array"}
 MetaKeys == {"mname", "mlabel", "mann", "mbogus"}
 InvalidKeys == {"nope", "strx", "str0", "obj0", "arrx", "objnope", "amax2", "mbogus"}
 AllKeys == {"str", "int", "num", "bool", "obj", "objk", "arr", "arr0", "aobjv", "wild", "amax1", "amax2", "map", "mapk", "mapany", "mapanyk",
-            "free", "freek", "ios", "xonly", "conly", "nope", "strx", "str0", "obj0", "arrx", "objnope", "mname", "mlabel", "mann", "mbogus",
+            "free", "freek", "ios", "xonly", "conly", "oonly", "nope", "strx", "str0", "obj0", "arrx", "objnope", "mname", "mlabel", "mann", "mbogus",
             "status", "bad", "empty"}
 
 \* what the typed schema of a side says about a key:
@@ -122,29 +124,34 @@ TypedClass(side, key) ==
     [] key \in {"mapanyk", "freek"} -> "unknown"
     [] key = "xonly" -> (IF side = "xr" THEN "string" ELSE "invalid")
     [] key = "conly" -> (IF side = "cd" THEN "string" ELSE "invalid")
+    [] key = "oonly" -> (IF side = "ot" THEN "string" ELSE "invalid")
     [] key \in InvalidKeys -> "invalid"
     [] key = "bad" -> "parse"
     [] key = "empty" -> "empty"
     [] OTHER -> "nokey"
 
-\* schema variants: without a usable schema (no schema, preserve-unknown-fields at the root, the schema under another
-\* version) every path outside metadata is accepted with unknown type; metadata.* is always known (defaultMetadataSchema)
+\* schema variants: typed = the schema above under v1; twoversions = the same under v1 next to a different v2 (looked up
+\* by version name); without a usable schema (noschema, preserve = preserve-unknown-fields at the root, otherversion = the
+\* CRD has typed versions v2 and v3 but not the v1 the Composition refers to) every path outside metadata is accepted with
+\* unknown type; metadata.* is always known (defaultMetadataSchema)
 ClassAt(side, variant, key) ==
-  IF key \in {"bad", "empty"} \/ key \in MetaKeys \/ variant = "typed" THEN TypedClass(side, key) ELSE "unknown"
+  IF key \in {"bad", "empty"} \/ key \in MetaKeys \/ variant \in {"typed", "twoversions"} THEN TypedClass(side, key) ELSE "unknown"
 
 \* ---------------------------------------------------------- patch types
 FieldTypes == {"FromCompositeFieldPath", "ToCompositeFieldPath", "default"}      \* default = type unset = FromComposite
 CombineTypes == {"CombineFromComposite", "CombineToComposite"}
 ToXR(pt) == pt \in {"ToCompositeFieldPath", "CombineToComposite"}
-SrcSide(pt) == IF ToXR(pt) THEN "cd" ELSE "xr"
-DstSide(pt) == IF ToXR(pt) THEN "xr" ELSE "cd"
+\* the composed side is the kind of the resource the patch belongs to (in.res: r1 = Thing, r2 = Other)
+CdSide(in) == IF in.res = "r2" THEN "ot" ELSE "cd"
+SrcSide(in) == IF ToXR(in.ptype) THEN CdSide(in) ELSE "xr"
+DstSide(in) == IF ToXR(in.ptype) THEN "xr" ELSE CdSide(in)
 SrcVariant(in) == IF ToXR(in.ptype) THEN in.cds ELSE in.xrs
 DstVariant(in) == IF ToXR(in.ptype) THEN in.xrs ELSE in.cds
 IsCombine(in) == in.ptype \in CombineTypes
 \* "Leave empty if you'd like to propagate to the same path as fromFieldPath"
 ToKey(in) == IF in.to = "unset" THEN in.from ELSE in.to
-SrcClass(in, key) == ClassAt(SrcSide(in.ptype), SrcVariant(in), key)
-DstClass(in) == ClassAt(DstSide(in.ptype), DstVariant(in), ToKey(in))
+SrcClass(in, key) == ClassAt(SrcSide(in), SrcVariant(in), key)
+DstClass(in) == ClassAt(DstSide(in), DstVariant(in), ToKey(in))
 \* ... but the validator does not default: it looks at patch.GetToFieldPath(), "" when unset, which validateFieldPath accepts
 \* with unknown type
 ValDstClass(in) == IF in.to = "unset" THEN "empty" ELSE DstClass(in)
@@ -214,16 +221,22 @@ Run(ch, G) ==
 \* the Go types that reach position k of the chain
 RECURSIVE Reach(_, _, _)
 Reach(ch, G, k) == IF k = 1 THEN G ELSE Reach(Tail(ch), (UNION {Step(ch[1], g) : g \in G}) \ {"TYPEERR"}, k - 1)
+\* the validator stops typing a chain at the first map / match ("no need to validate the rest of the transforms as a nil output
+\* without error means we don't have a way to know the output type"): nothing is promised for what comes after one
+Blind(ch) == \E k \in DOMAIN ch : k < Len(ch) /\ ch[k] \in MapT
 \* for a source value of Go type g: always = every value fails with a type error, never = no value does, some = depends
 TypeErr(ch, g) == LET r == Run(ch, {g}) IN IF r.outs = {} THEN "always" ELSE IF ~r.failed /\ ~r.unsure THEN "never" ELSE "some"
 \* the first Go type of a patch: a Combine always yields a string (fmt.Sprintf)
 StartSet(in) == IF IsCombine(in) THEN {"string"} ELSE GoSet(SrcClass(in, in.from))
-\* cells in which the static typing is knowingly wrong about the dynamic type (named so that each can be a known finding):
-\*  ConvertObjectInput  a convert transform receives an object or an array: the validator sees "object -> object" (a no-op)
-\*                      or types an array as an object, the runtime rejects every map / slice ("invalid input type")
+\* cells in which the static typing was or is wrong about the dynamic type (named so that each can be a known finding):
+\*  ConvertObjectInput  a convert transform receives an object or an array: the validator saw "object -> object" (a no-op)
+\*                      or typed an array as an object, the runtime rejects every map / slice ("invalid input type").
+\*                      REPAIRED in /repo (67466d9, FixConvertObject): the cell is sound now, the name stays so that the
+\*                      formula Sound.ConvertObjectInput fires again should the guard be lost
 \*  ConvertFormatOnInteger  a convert to float64 with a format (quantity) receives an int64 although the validator typed the
 \*                      input float64 (an integral value of a number field, the result of math on an integer, a clamp value):
-\*                      the validator sees a no-op, the runtime finds no int64 -> float64 conversion with that format
+\*                      the validator sees a no-op, the runtime finds no int64 -> float64 conversion with that format.
+\*                      OPEN (known finding D23)
 Cell(ch, g) ==
   IF \E k \in DOMAIN ch : ch[k] \in CvT /\ Reach(ch, {g}, k) \cap {"map", "slice"} # {} THEN "ConvertObjectInput"
   ELSE IF \E k \in DOMAIN ch : ch[k] \in CvT /\ CvFmt(ch[k]) # "none" /\ CvTo(ch[k]) = "float64" /\ "int64" \in Reach(ch, {g}, k) THEN "ConvertFormatOnInteger"
@@ -248,6 +261,10 @@ ValIO(json) == CASE json = "string" -> "string" [] json = "boolean" -> "bool" []
 \* FromTransformIOType
 ValJson(io) == CASE io = "string" -> "string" [] io = "bool" -> "boolean" [] io = "int64" -> "integer" [] io = "float64" -> "number"
                  [] io = "map" -> "object" [] io = "slice" -> "array" [] OTHER -> ""
+\* the repair 67466d9 ("convert transform does not support %s input"): a convert transform whose static input type is
+\* object or array is rejected before GetConversionFunc is asked.  FALSE = the validator as it was before the repair
+\* (MCCompValidation_witness_convobj.cfg overrides it to show that this guard is what makes DesignSound hold).
+FixConvertObject == TRUE
 \* IsValidInputForTransform (not consulted when the input type is unknown)
 ValInputOK(t, io) ==
   CASE t \in MathT -> io \in {"int64", "float64"}
@@ -255,7 +272,8 @@ ValInputOK(t, io) ==
     [] t \in StrAnyT -> TRUE
     [] t \in StrStrT -> io = "string"
     [] t \in JoinT -> io = "slice"
-    [] t \in CvT -> CvTo(t) = io \/ <<io, CvTo(t), CvFmt(t)>> \in ConvTable          \* GetConversionFunc
+    [] t \in CvT -> /\ ~(FixConvertObject /\ io \in {"map", "slice"})
+                    /\ (CvTo(t) = io \/ <<io, CvTo(t), CvFmt(t)>> \in ConvTable)       \* GetConversionFunc
     [] OTHER -> FALSE
 \* Transform.GetOutputType: math is always float64, map / match are unknown ("stop"), string transforms give a string
 ValOut(t) == CASE t \in MathT -> "float64" [] t \in MapT -> "stop" [] t \in CvT -> CvTo(t) [] OTHER -> "string"
@@ -282,7 +300,7 @@ ValAccepts(in) ==
 \* The static typing is sound for the dynamic type flow: what it accepts cannot fail with a type error for any Go type a
 \* value of the declared source type can have - except in the named cells.
 DesignSoundFor(in, known) ==
-  (LogicallyValid(in) /\ ValAccepts(in)) =>
+  (LogicallyValid(in) /\ ValAccepts(in) /\ ~Blind(in.chain)) =>
      \A g \in StartSet(in) \ {"any"} : Run(in.chain, {g}).failed => Cell(in.chain, g) \in known
 
 \* -------------------------------------- readiness checks / connection details
